@@ -575,6 +575,12 @@ def run(ctx):
         for sig, what in v:
             if sig in reported:
                 continue
+            if sig.split(":")[0] in ("stall", "hang"):
+                # timing-based monitors (watchdog / batch timeout): confirm in isolation, the machine may just be overloaded
+                again = [run_batch(ctx, exe, [r.spec])[0] for _ in range(2)]
+                if not any(s2 == sig for rr in again for s2, _ in judge(ctx, rr, bases.get(scen), sym, stats)):
+                    ctx.notes.setdefault("unconfirmed_timing", []).append(r.spec)
+                    continue
             rep = faults
             if len(faults) > 1:
                 for f in faults:
